@@ -189,6 +189,8 @@ func (ex *Exec) intrinsic(fn *ssa.Function, args []Value) (Value, bool) {
 		// progress text of the zmodem bridge (float formatting): outside every claim
 		ex.stubsUsed[name]++
 		return nil, true
+	case "strings.Clone", "internal/stringslite.Clone":
+		return args[0], true // strings are immutable values here
 	case "bytes.Contains":
 		ex.stubsUsed[name]++
 		hay, needle := ex.sliceBytes(args[0].(Slice)), ex.sliceBytes(args[1].(Slice))
